@@ -1455,13 +1455,20 @@ impl ValidationCache {
             return;
         };
 
-        self.inner.lock().insert(
-            key,
-            (
-                Instant::now() + Duration::from_secs(first_record.ttl.into()).clamp(min, max),
-                proof.clone(),
-            ),
-        );
+        let mut lifetime = Duration::from_secs(first_record.ttl.into()).clamp(min, max);
+        // A verdict must not be served once the signature it rests on has expired. The
+        // authenticated TTL is already bounded by the RRSIG's remaining lifetime.
+        if let Ok(RrsetProof {
+            adjusted_ttl: Some(adjusted_ttl),
+            ..
+        }) = &proof
+        {
+            lifetime = lifetime.min(Duration::from_secs(u64::from(*adjusted_ttl)));
+        }
+
+        self.inner
+            .lock()
+            .insert(key, (Instant::now() + lifetime, proof.clone()));
     }
 }
 
